@@ -11,5 +11,5 @@ Next == UNCHANGED vars
 Spec == Init /\ [][Next]_vars
 GroupAxioms == IsGroup(G)
 CrystallographicOrder == Cardinality(G) \in {1, 2, 3, 4, 6, 8, 12, 16, 24, 48}
-OrthogonalAreBox == (lat # "hex") <=> box
+OrthogonalAreBox == (lat \in {"ort", "tet", "cub", "rho"}) <=> box      \* hex, bcc, fcc: cells are not mapped to cells
 =============================================================================
